@@ -10,7 +10,16 @@ From Srtla Require Import Base Constants.
 From Srtla Require Export Reconnect ReconShell ReconStep Mon_C08.
 Local Open Scope Z_scope.
 
-Inductive case := Case (n : nat) (t0 : Z) (steps : list stp).
+(** A case crosses in delta form: after each op only the links whose observation changed
+    and only the non-empty wires are listed; [expand] rebuilds the full observations. *)
+Record dstp := DS { d_op : op; d_links : list (nat * lobs); d_glob : option gobs; d_wire : list (nat * list Z) }.
+Inductive case := Case (n : nat) (t0 : Z) (steps : list dstp).
+
+Fixpoint patch {A} (prev : list A) (ds : list (nat * A)) : list A :=
+  match ds with
+  | [] => prev
+  | (i, q) :: r => patch (upd i (fun _ => q) prev) r
+  end.
 
 (** ---- observation of a model state ---- *)
 Definition oz (o : option Z) : Z := match o with Some x => x | None => -1 end.
@@ -36,6 +45,17 @@ Definition obs_step (x : op * out * state) : stp :=
 
 (** the model's own trace in the implementation's format *)
 Definition trace (n : nat) (t0 : Z) (ops : list op) : list stp := map obs_step (run n t0 ops).
+
+Fixpoint expand (n : nat) (prev : list lobs) (pg : gobs) (l : list dstp) : list stp :=
+  match l with
+  | [] => []
+  | d :: r => let cur := patch prev (d_links d) in
+              let g := match d_glob d with Some g => g | None => pg end in
+              SP (d_op d) cur g (patch (repeat [] n) (d_wire d)) :: expand n cur g r
+  end.
+Definition steps_of (c : case) : list stp :=
+  let 'Case n t0 ds := c in
+  expand n (repeat (obs_link (link0 t0)) n) (obs_glob (init n t0) false) ds.
 
 (** ---- monitor driver ---- *)
 Definition ml0 (t0 : Z) : mlink := ML (obs_link (link0 t0)) false false false true true None false false 0.
@@ -132,7 +152,8 @@ Definition wf_ops (t0 : Z) (ops : list op) : bool := (0 <? t0) && wf_from t0 ops
     trace; 16 when only the correspondence fails; 31 for an ill-formed case.
     step (value / 1024): first failing step of the monitor, else first differing step. *)
 Definition check_case (c : case) : N :=
-  let 'Case n t0 steps := c in
+  let 'Case n t0 _ := c in
+  let steps := steps_of c in
   let ops := map s_op steps in
   if negb (wf_ops t0 ops) then (1 + 4 * 31)%N else
   let d := first_diff (trace n t0 ops) steps 0 in
